@@ -255,6 +255,27 @@ def _cformat(e, st, fmt, args):
     return out
 
 
+def _freq10(arfcn, uplink):
+    """3GPP TS 45.005 band plan as libosmocore's gsm_arfcn2freq10() implements it (flags: 0x8000 = PCS 1900, 0x4000 = uplink marker)"""
+    pcs = arfcn & 0x8000; a = arfcn & 0x3fff
+    if pcs: u = 18502 + 2 * (a - 512); d = u + 800
+    elif a <= 124: u = 8900 + 2 * a; d = u + 450
+    elif 955 <= a <= 1023: u = 8900 + 2 * (a - 1024); d = u + 450
+    elif 128 <= a <= 251: u = 8242 + 2 * (a - 128); d = u + 450
+    elif 512 <= a <= 885: u = 17102 + 2 * (a - 512); d = u + 950
+    else: return 0xffff
+    return u if uplink else d
+
+
+def _band_plan(band, n):
+    """(mobile allocation of n channels in that band, independent kHz formulas for uplink / downlink of an ARFCN with its flags)"""
+    if band == 900: return [1 + k for k in range(n)], (lambda a: 890000 + 200 * a), (lambda a: 935000 + 200 * a)
+    if band == 850: return [128 + k for k in range(n)], (lambda a: 824200 + 200 * (a - 128)), (lambda a: 869200 + 200 * (a - 128))
+    if band == 1800: return [512 + 3 * k for k in range(n)], (lambda a: 1710200 + 200 * (a - 512)), (lambda a: 1805200 + 200 * (a - 512))
+    if band == 1900: return [0x8000 | (512 + 3 * k) for k in range(n)], (lambda a: 1850200 + 200 * ((a & 0x3ff) - 512)), (lambda a: 1930200 + 200 * ((a & 0x3ff) - 512))
+    raise ValueError(band)
+
+
 def c_setfh_compose(hid, band, n, timeout_ms=60000):
     """the SETFH command trxcon composes for a mobile allocation of n channels (trx_if_cmd_setfh, real snprintf semantics for the
     bounded appends): 'CMD SETFH <hsn> <maio>' followed by n pairs of downlink/uplink kHz values of exactly the allocated channels,
@@ -264,8 +285,7 @@ def c_setfh_compose(hid, band, n, timeout_ms=60000):
     so = cjob.offsets(PRE, ['sizeof(struct trxcon_phyif_cmdp_setfreq_h1)', 'offsetof(struct trxcon_phyif_cmdp_setfreq_h1, hsn)', 'offsetof(struct trxcon_phyif_cmdp_setfreq_h1, maio)',
                             'offsetof(struct trxcon_phyif_cmdp_setfreq_h1, ma)', 'offsetof(struct trxcon_phyif_cmdp_setfreq_h1, ma_len)'], INCS, defs=[])
     csz, o_hsn, o_maio, o_ma, o_len = so.values()
-    if band == 900: arfcns = [1 + k for k in range(n)]; ul = lambda a: 890000 + 200 * a; dl = lambda a: ul(a) + 45000
-    else: arfcns = [512 + 3 * k for k in range(n)]; ul = lambda a: 1710200 + 200 * (a - 512); dl = lambda a: ul(a) + 95000
+    arfcns, ul, dl = _band_plan(band, n)
     hsn, maio = 37, 5
     ma = ex.new_obj(2 * n, 'ma'); cmdp = ex.new_obj(csz, 'cmdp'); ex.zeroed.add(cmdp)
     env.mem[ma] = {2 * k: (2, C(a)) for k, a in enumerate(arfcns)}
@@ -282,7 +302,7 @@ def c_setfh_compose(hid, band, n, timeout_ms=60000):
         composed.append((st.guard, a[1].conc(), _cstr(e, st, a[2]), _cformat(e, st, _cstr(e, st, a[3]), a[4:]))); return C(0)
     # reference band plan (3GPP TS 45.005): the real gsm_arfcn2freq10() of libosmocore is checked against it in C19's module build
     ex.stubs.update({'@snprintf': snprintf, '@trx_ctrl_cmd': ctrl_cmd, '@logp2': lambda e, st, a: C(0),
-                     '@gsm_arfcn2freq10': lambda e, st, a: C(((ul if a[1].conc() else dl)(a[0].conc() & 0x3ff if band == 900 else a[0].conc() & 0x3ff)) // 100)})
+                     '@gsm_arfcn2freq10': lambda e, st, a: C(_freq10(a[0].conc(), a[1].conc()))})
     out = env.call('@trx_if_cmd_setfh', [Ptr(env.trx, C(0)), Ptr(cmdp, C(0))])
     j.memory_obligations(ex, [])
     rc = out.ret.conc(); rc = rc - (1 << 32) if rc is not None and rc >= (1 << 31) else rc
@@ -293,7 +313,7 @@ def c_setfh_compose(hid, band, n, timeout_ms=60000):
         st_.obligations += 1
         if ok: st_.discharged += 1; st_.trivial += 1
         else: st_.failures.append(dict(harness=hid, obligation=name, inputs=dict(band=band, n=n), info={k: repr(v)[:300] for k, v in info.items()}))
-    if band == 900 or fits:
+    if band in (900, 850) or fits:
         ob('composed', rc == 0 and len(composed) == 1, rc=rc, commands=len(composed))
         if composed:
             g, crit, verb, text = composed[0]
@@ -388,7 +408,9 @@ void osmo_timer_del(struct osmo_timer_list *t) { }
 void osmo_fd_unregister(struct osmo_fd *f) { }
 int osmo_sock_init2_ofd(struct osmo_fd *ofd, int family, int type, int proto, const char *lh, uint16_t lp, const char *rh, uint16_t rp, unsigned int flags) { return 0; }
 static int g_band;
-uint16_t gsm_arfcn2freq10(uint16_t a, int ul) { if (g_band == 900) return (890000 + 200 * a + (ul ? 0 : 45000)) / 100; if (g_band == 1800) return (1710200 + 200 * (a - 512) + (ul ? 0 : 95000)) / 100; return 9352; }
+uint16_t gsm_arfcn2freq10(uint16_t arfcn, int ul) { if (!g_band) return 9352; int pcs = arfcn & 0x8000; int a = arfcn & 0x3fff; int u, d;
+  if (pcs) { u = 18502 + 2 * (a - 512); d = u + 800; } else if (a <= 124) { u = 8900 + 2 * a; d = u + 450; } else if (a >= 128 && a <= 251) { u = 8242 + 2 * (a - 128); d = u + 450; } else if (a >= 512 && a <= 885) { u = 17102 + 2 * (a - 512); d = u + 950; } else return 0xffff;
+  return ul ? u : d; }
 uint16_t gsm_freq102arfcn(uint16_t f, int ul) { return 1; }
 int trxcon_phyif_handle_rsp(void *p, const struct trxcon_phyif_rsp *r) { printf("RSPIND %%d\n", r->param.measure.dbm); return 0; }
 int trxcon_phyif_handle_rts_ind(void *p, const struct trxcon_phyif_rts_ind *r) { return 0; }
@@ -411,7 +433,7 @@ int main(int argc, char **argv) {
     printf("RC %%d\n", trx_if_handle_phyif_burst_req(trx, &br));
   } else if (!strcmp(argv[k], "setfh")) {
     k++; g_band = atoi(argv[k++]); int n = atoi(argv[k++]); uint16_t *ma = malloc(2 * n);
-    for (int i = 0; i < n; i++) ma[i] = g_band == 900 ? 1 + i : 512 + 3 * i;
+    for (int i = 0; i < n; i++) ma[i] = g_band == 900 ? 1 + i : g_band == 850 ? 128 + i : g_band == 1800 ? 512 + 3 * i : (0x8000 | (512 + 3 * i));
     struct trxcon_phyif_cmdp_setfreq_h1 c = { .hsn = 37, .maio = 5, .ma = ma, .ma_len = n };
     int rc = trx_if_cmd_setfh(trx, &c);
     printf("RC %%d QUEUE %%d\n", rc, !llist_empty(&trx->trx_ctrl_list));
@@ -439,13 +461,12 @@ def replay(body):
         rc, out = native(['setfh', band, n])
         if rc is None: return 2, out
         if rc != 0: return 1, 'REPRODUCED on native trx_if.c (ASan/UBSan): SETFH for %d channels: %s' % (n, out[-600:])
-        if band == 900: arfcns = [1 + k for k in range(n)]; ul = lambda a: 890000 + 200 * a; dl = lambda a: ul(a) + 45000
-        else: arfcns = [512 + 3 * k for k in range(n)]; ul = lambda a: 1710200 + 200 * (a - 512); dl = lambda a: ul(a) + 95000
+        arfcns, ul, dl = _band_plan(band, n)
         want = 'CMD SETFH 37 5 ' + ' '.join('%d %d' % (dl(a), ul(a)) for a in arfcns)
         m = re.search(r'RC (-?\d+) QUEUE (\d)', out); t = re.search(r'CMDTEXT (.*)', out)
         grc = int(m.group(1)); text = t.group(1) if t else None
         fits = len(want) - len('CMD SETFH 37 5 ') + 1 <= 1024 - 24 - 1 and len(want) < 1023
-        if band == 900 or fits:
+        if band in (900, 850) or fits:
             ok = grc == 0 and text == want
         else:
             ok = (grc < 0 and text is None) or (grc == 0 and text == want)
